@@ -6,7 +6,7 @@ branch, undecidable conditions produce Piecewise expressions.  Loops, writes thr
 unknown callees raise NotClosedForm (the obligation is then reported as not analysable)."""
 import sympy
 
-from .facts import strip, txt, callee, call_args, const_val, callee_node
+from .facts import strip, txt, callee, call_args, const_val, callee_node, walk
 from .sym import to_sympy, NotClosedForm
 
 INT_HELPERS = {
@@ -286,6 +286,8 @@ class ArrayPEval(PEval):
         super().__init__(db, max_depth)
         self.hook = hook
         self.members = members or {}
+        self.tracked = None       # set of variable ids whose assigned values are collected in self.assigned
+        self.assigned = []
 
     @staticmethod
     def _element(n):
@@ -328,6 +330,28 @@ class ArrayPEval(PEval):
             return base(n)
         return res
 
+    def inplace(self, lst, env, fn, depth):
+        # an `if` whose condition is symbolic is stepped over when neither branch assigns one of the tracked variables
+        # (used to collect the values a loop assigns to a variable; the guarded bodies only consume it)
+        out = []
+        for st in lst:
+            if st is not None and st.get("k") == "IfStmt" and getattr(self, "tracked", None) is not None:
+                try:
+                    truth, _ = self.cond(st["cond"], env, fn, depth)
+                except NotClosedForm:
+                    truth = None
+                if truth is None:
+                    for q in walk(st):
+                        if q.get("k") in ("BinaryOperator", "CompoundAssignOperator") and q.get("op") in ("=", "+=", "-=", "*=", "/="):
+                            l = strip(q["c"][0])
+                            if l is not None and l.get("k") == "DeclRefExpr" and l.get("did") in self.tracked:
+                                raise NotClosedForm("a tracked variable is assigned under a symbolic condition")
+                    continue
+            r = super().inplace([st], env, fn, depth)
+            if r is not None:
+                return r
+        return None
+
     def stmts(self, lst, env, fn, depth):
         out = []
         for st in lst:
@@ -363,6 +387,16 @@ class ArrayPEval(PEval):
                             raise NotClosedForm("update of an unset array element")
                         cur = arr[int(i)]
                         arr[int(i)] = cur * r if op == "*=" else cur + r if op == "+=" else cur - r if op == "-=" else cur / r
+                    continue
+            if k == "BinaryOperator" and st.get("op") == "=" and getattr(self, "tracked", None) is not None:
+                lhs = strip(st["c"][0])
+                if lhs is not None and lhs.get("k") == "DeclRefExpr" and lhs.get("did") in self.tracked:
+                    try:
+                        v = self.expr(st["c"][1], env, fn, depth)
+                    except NotClosedForm:
+                        v = None        # restored from a saved copy, or something that is not one of the hooked relations
+                    self.assigned.append((lhs["did"], v))
+                    env[lhs["did"]] = OPAQUE
                     continue
             if k in ("BinaryOperator", "CompoundAssignOperator") and st.get("op") in ("=", "*=", "+=", "-=", "/=", "%="):
                 lhs = strip(st["c"][0])
